@@ -278,7 +278,8 @@ func fill(r *vlib.Rand, pool []string, badPool []string, malformed bool) (vs, ns
 }
 
 type genCfg struct {
-	malformed bool // out-of-validation values: bad ports / CIDRs / header keys / unknown attributes
+	extra     []string // extra distribution tags
+	malformed bool     // out-of-validation values: bad ports / CIDRs / header keys / unknown attributes
 	jwt       bool
 	aliases   bool
 }
@@ -911,12 +912,135 @@ func tagsOf(o Opts, ps []Pol, g genCfg) []string {
 			}
 		}
 	}
+	for _, t := range g.extra {
+		set[t] = true
+	}
 	out := make([]string, 0, len(set))
 	for k := range set {
 		out = append(out, k)
 	}
 	sort.Strings(out)
 	return out
+}
+
+// ---------------------------------------------------------------- stream "manywhen"
+// One policy, one rule with 2-3 from, 2-3 to and 0..10 when-conditions on EACH side (principal /
+// permission), every count equally likely.  Conditions are drawn around a fixed target request so
+// that the conjunction stays satisfiable: every condition holds for the target except (sometimes)
+// one; each from/to alternative holds for the target or not.  Requests: the target and
+// single-attribute deviations.  Values are short to keep the Coq terms small.
+
+type cv struct {
+	key  string
+	v, n []string
+}
+
+func genManyWhen(r *vlib.Rand, tcp bool) ([]Pol, []Req, []string) {
+	peer := "cluster.local/ns/foo/sa/a"
+	prinTrue := []cv{
+		{"source.ip", []string{"10.0.0.0/24"}, nil}, {"source.ip", []string{"10.0.0.1"}, nil}, {"source.ip", nil, []string{"10.1.0.0/16"}},
+		{"remote.ip", []string{"10.0.0.0/24"}, nil}, {"remote.ip", nil, []string{"10.1.0.0/16"}}, {"remote.ip", []string{"0.0.0.0/0"}, nil},
+		{"source.namespace", []string{"foo"}, nil}, {"source.namespace", []string{"fo*"}, nil}, {"source.namespace", nil, []string{"bar"}},
+		{"source.principal", []string{peer}, nil}, {"source.principal", []string{"cluster.local/*"}, nil}, {"source.principal", nil, []string{"td2/*"}},
+		{"source.serviceAccount", []string{"a"}, nil}, {"source.serviceAccount", []string{"foo/a"}, nil}, {"source.serviceAccount", nil, []string{"b"}},
+	}
+	prinFalse := []cv{
+		{"source.ip", []string{"10.1.0.0/16"}, nil}, {"remote.ip", nil, []string{"10.0.0.0/24"}}, {"source.namespace", []string{"bar"}, nil},
+		{"source.principal", []string{"td2/*"}, nil}, {"source.serviceAccount", []string{"b"}, nil},
+	}
+	if !tcp {
+		prinTrue = append(prinTrue, cv{"request.headers[x-token]", []string{"secret"}, nil}, cv{"request.headers[x-token]", []string{"sec*"}, nil},
+			cv{"request.headers[x-token]", nil, []string{"abc"}})
+		prinFalse = append(prinFalse, cv{"request.headers[x-token]", []string{"abc"}, nil})
+	}
+	permTrue := []cv{
+		{"destination.ip", []string{"10.0.0.0/24"}, nil}, {"destination.ip", []string{"10.0.0.2"}, nil}, {"destination.ip", nil, []string{"10.1.0.0/16"}},
+		{"destination.port", []string{"8080"}, nil}, {"destination.port", nil, []string{"80"}}, {"destination.port", []string{"443", "8080"}, nil},
+		{"connection.sni", []string{"www.example.com"}, nil}, {"connection.sni", []string{"*.example.com"}, nil}, {"connection.sni", nil, []string{"db.internal"}},
+	}
+	permFalse := []cv{
+		{"destination.ip", []string{"10.1.0.0/16"}, nil}, {"destination.port", []string{"80"}, nil}, {"connection.sni", []string{"db.internal"}, nil},
+	}
+	srcTrue := []Src{{Principals: []string{peer}}, {Namespaces: []string{"foo"}}, {IpBlocks: []string{"10.0.0.0/24"}}, {ServiceAccounts: []string{"a"}},
+		{RemoteIpBlocks: []string{"10.0.0.1"}, Namespaces: []string{"fo*"}}}
+	srcFalse := []Src{{Namespaces: []string{"bar"}}, {Principals: []string{"td2/ns/bar/sa/b"}}, {IpBlocks: []string{"10.1.0.0/16"}}, {NotNamespaces: []string{"foo"}},
+		{ServiceAccounts: []string{"b"}}}
+	opTrue := []Op{{Ports: []string{"8080"}}, {NotPorts: []string{"80"}}}
+	opFalse := []Op{{Ports: []string{"80"}}, {Ports: []string{"443"}}}
+	if !tcp {
+		opTrue = append(opTrue, Op{Methods: []string{"GET"}}, Op{Paths: []string{"/api*"}}, Op{Hosts: []string{"example.com"}, Ports: []string{"8080"}})
+		opFalse = append(opFalse, Op{Methods: []string{"POST"}}, Op{Paths: []string{"/admin"}})
+	}
+	ru := Rule{}
+	for i, n := 0, 2+r.Intn(2); i < n; i++ {
+		if r.Bool() {
+			ru.From = append(ru.From, vlib.Pick(r, srcTrue))
+		} else {
+			ru.From = append(ru.From, vlib.Pick(r, srcFalse))
+		}
+	}
+	for i, n := 0, 2+r.Intn(2); i < n; i++ {
+		if r.Bool() {
+			ru.To = append(ru.To, vlib.Pick(r, opTrue))
+		} else {
+			ru.To = append(ru.To, vlib.Pick(r, opFalse))
+		}
+	}
+	kPrin, kPerm := r.Intn(11), r.Intn(11)
+	var conds []Cond
+	falseAt := -1
+	if kPrin+kPerm > 0 && r.Chance(35) {
+		falseAt = r.Intn(kPrin + kPerm)
+	}
+	for i := 0; i < kPrin+kPerm; i++ {
+		var c cv
+		switch {
+		case i < kPrin && i == falseAt:
+			c = vlib.Pick(r, prinFalse)
+		case i < kPrin:
+			c = vlib.Pick(r, prinTrue)
+		case i == falseAt:
+			c = vlib.Pick(r, permFalse)
+		default:
+			c = vlib.Pick(r, permTrue)
+		}
+		conds = append(conds, Cond{Key: c.key, Values: c.v, NotValues: c.n})
+	}
+	// interleave the two sides (model.New routes every condition by its key)
+	for i := len(conds) - 1; i > 0; i-- {
+		j := r.Intn(i + 1)
+		conds[i], conds[j] = conds[j], conds[i]
+	}
+	ru.When = conds
+	act := "ALLOW"
+	if r.Bool() {
+		act = "DENY"
+	}
+	ps := []Pol{{ID: 0, NS: wlNS, Action: act, Rules: []Rule{ru}}}
+	target := Req{Peer: sp(peer), SrcIP: 0x0a000001, RemoteIP: 0x0a000001, DstIP: 0x0a000002, DstPort: 8080, SNI: "www.example.com"}
+	if !tcp {
+		target.Headers = [][2]string{{":authority", "example.com"}, {":method", "GET"}, {"x-token", "secret"}}
+		target.Path = sp("/api")
+	}
+	reqs := []Req{target}
+	q := target
+	q.Peer = sp("td2/ns/bar/sa/b")
+	reqs = append(reqs, q)
+	q = target
+	q.DstPort = 80
+	reqs = append(reqs, q)
+	q = target
+	q.SrcIP, q.RemoteIP = 0x0a010005, 0x0a010005
+	reqs = append(reqs, q)
+	q = target
+	q.SNI = "db.internal"
+	q.DstIP = 0x0a010002
+	reqs = append(reqs, q)
+	q = target
+	q.Peer = nil
+	reqs = append(reqs, q)
+	return ps, reqs, []string{fmt.Sprintf("when-principal-side:%02d", kPrin), fmt.Sprintf("when-permission-side:%02d", kPerm),
+		fmt.Sprintf("from:%d", len(ru.From)), fmt.Sprintf("to:%d", len(ru.To))}
 }
 
 const findingNS = "C08-namespace-regex-unanchored"
@@ -993,7 +1117,7 @@ func httpReq(peer *string, host, method, path string) Req {
 func TestGen(t *testing.T) {
 	c := vlib.NewCollector("C08", "V.C08.Run")
 	c.Rule = "policy sets (1-3 AuthorizationPolicies, 0-3 rules each, from/to/when with values and notValues in exact/prefix*/*suffix/* forms) are generated per stream " +
-		"(http, tcp, filter-state, trust-domain aliases, jwt, malformed values); each set goes through the real ListAuthorizationPolicies + builder.New(..).BuildHTTP/BuildTCP, " +
+		"(http, tcp, filter-state, trust-domain aliases, jwt, malformed values, manywhen = one rule with 2-3 from, 2-3 to and 0..10 when-conditions per side); each set goes through the real ListAuthorizationPolicies + builder.New(..).BuildHTTP/BuildTCP, " +
 		"the RBAC protos are decoded into the model AST (model_ok: = model compiler output) and evaluated by the Coq reference evaluator on requests built from the set's constants " +
 		"and near misses (prop_ok per request: = policy decision). non-trivial = at least one policy has a rule. Req cases only reserve ids for (policy, request) samples."
 	e := &emitter{c: c, replay: vlib.ReplayIDs()}
@@ -1023,13 +1147,13 @@ func TestGen(t *testing.T) {
 	}
 	tdsPool := [][]string{{"cluster.local"}, {"td2", "old-td"}, {"cluster.local", "td2"}, {"new-td", "old-td", "td2"}, {"td2"}}
 	streams := []stream{
-		{"http", vlib.Scale(230, 6000), func(r *vlib.Rand) Opts { return dflt }, genCfg{}},
-		{"tcp", vlib.Scale(160, 4000), func(r *vlib.Rand) Opts { return Opts{TCP: true, TrustDomains: []string{"cluster.local"}} }, genCfg{}},
-		{"jwt", vlib.Scale(140, 4000), func(r *vlib.Rand) Opts { return Opts{TCP: r.Chance(25), TrustDomains: []string{"cluster.local"}} }, genCfg{jwt: true}},
+		{"http", vlib.Scale(200, 6000), func(r *vlib.Rand) Opts { return dflt }, genCfg{}},
+		{"tcp", vlib.Scale(120, 4000), func(r *vlib.Rand) Opts { return Opts{TCP: true, TrustDomains: []string{"cluster.local"}} }, genCfg{}},
+		{"jwt", vlib.Scale(130, 4000), func(r *vlib.Rand) Opts { return Opts{TCP: r.Chance(25), TrustDomains: []string{"cluster.local"}} }, genCfg{jwt: true}},
 		{"aliases", vlib.Scale(90, 3000), func(r *vlib.Rand) Opts {
 			return Opts{TCP: r.Chance(30), UseFilterState: r.Chance(40), TrustDomains: vlib.Pick(r, tdsPool)}
 		}, genCfg{aliases: true}},
-		{"malformed", vlib.Scale(100, 3000), func(r *vlib.Rand) Opts { return Opts{TCP: r.Chance(40), TrustDomains: []string{"cluster.local"}} }, genCfg{malformed: true, jwt: true}},
+		{"malformed", vlib.Scale(90, 3000), func(r *vlib.Rand) Opts { return Opts{TCP: r.Chance(40), TrustDomains: []string{"cluster.local"}} }, genCfg{malformed: true, jwt: true}},
 	}
 	root := vlib.NewRand(vlib.Seed())
 	nreq := 10
@@ -1059,7 +1183,16 @@ func TestGen(t *testing.T) {
 			e.emit(o, ps, reqs, st.g, "stream "+st.name, nil)
 		}
 	}
-	c.Extra["streams"] = fmt.Sprintf("%d", len(streams))
+	{
+		sr := root.Sub()
+		for i, n := 0, vlib.Scale(140, 3000); i < n; i++ {
+			r := sr.Sub()
+			o := Opts{TCP: i%2 == 1, TrustDomains: []string{"cluster.local"}}
+			ps, reqs, extra := genManyWhen(r, o.TCP)
+			e.emit(o, ps, reqs, genCfg{extra: extra}, "stream manywhen", nil)
+		}
+	}
+	c.Extra["streams"] = fmt.Sprintf("%d", len(streams)+1)
 	if err := c.Flush(); err != nil {
 		t.Fatal(err)
 	}
